@@ -181,9 +181,41 @@ def run(ctx):
                     ret_none = True
     ctx.check(ret_none, rule5, "load_optional:guard", "the `no companion` answer is not guarded by "
               "overlay.or_else(disk_text).is_none()", facts.bodies()[lo]["loc"], detail={"guard": "overlay.or_else(disk_text).is_none()"})
+    rule_path_spelling(ctx)
     ctx.assume("salsa's own memoisation and revision logic are correct; lru=1 re-materialisation is deterministic (C16)")
     ctx.assume("callers announce disk changes through refresh_disk (contract of the session API)")
     return {}
+
+
+def rule_path_spelling(ctx):
+    """F12: the path stored in an input is later read back from disk, so the identity must be a spelling that opens the file."""
+    rule = "path-spelling"
+    facts = ctx.facts
+    ctx.rule(rule, "MIR may-analysis over every non-test body: no Path::join / PathBuf::push appends a path that may still be the "
+                   "empty PathBuf::new() / String::new() (`p.join(\"\")` is `p/`: equal as a registry key, but opening it fails with "
+                   "NotADirectory once the file exists, so a file first seen while absent can never be refreshed)")
+    n = 0
+    for p, bd in sorted(facts.bodies().items()):
+        if bd["tag"].endswith("-test"):
+            continue
+        m = facts.mir(p)
+        if m is None:
+            continue
+        b = M.Body(p, m)
+        sites = [t for _, t in b.calls() if t["fn"] in M.PATH_APPEND]
+        if not sites:
+            continue
+        n += len(sites)
+        hits = M.may_empty_appends(b)
+        fn = p.split("::{closure")[0]
+        for bb, t in hits:
+            ctx.violation(rule, "%s:%s" % (fn.split("::")[-2] + "::" + fn.split("::")[-1], t["fn"].split("::")[-1]),
+                          "%s appends a possibly empty path with %s: the result ends in a separator" % (p, t["fn"]),
+                          [bd["loc"][0], t.get("ln")])
+        if not hits and "SourcePath::identity" in p:
+            ctx.ok(rule, "identity", {"fn": fn, "appends": len(sites), "may_append_empty": 0})
+    ctx.ok(rule, "inventory", {"path_appends_checked": n})
+    ctx.floor(rule, "Path::join / PathBuf::push sites", n, 20)
 
 
 def _short(p):
